@@ -6,12 +6,13 @@ import Driver.Parse
 import Driver.Proc
 import Driver.Fill
 import Driver.Json
+import Driver.ArpCache
 
 /-!
 Line-protocol driver: one case per input line, `tag \t fields… \t observed`, one answer per line,
 `model-output \t spec-verdict` (`1` = the Spec predicate holds of the *observed* output).
 -/
-open Driver Driver.J
+open Driver Driver.J Driver.A
 
 def dispatch (line : String) : String :=
   match splitTabs line with
@@ -30,6 +31,7 @@ def dispatch (line : String) : String :=
   | "pexclfile" :: rest => (handlePExclFile rest).getD "BAD-CASE\t0"
   | "jres" :: rest => (handleJRes rest).getD "BAD-CASE\t0"
   | "jlog" :: rest => (handleJLog rest).getD "BAD-CASE\t0"
+  | "arpc" :: rest => (handleArpC rest).getD "BAD-CASE\t0"
   | _ => "BAD-TAG\t0"
 
 partial def loop (h : IO.FS.Stream) (out : IO.FS.Stream) : IO Unit := do
